@@ -648,9 +648,85 @@ fn saved_documents(rep: &'static Report, depth: usize) -> Value {
         "alphabet": ["didChange conftest.py := valid with star import", "didChange := text that does not parse", "didChange := valid without imports", "save (buffer written to disk)", "didClose of the unmodified document"]})
 }
 
+/// Queries that run WHILE an analysis is changing the index (thread interleavings, E1): whatever a query
+/// caches then must not be served once the analysis has finished. Every schedule with ≤ P preemptions of
+/// [didChange(conftest.py := version without the fixtures)] ∥ [cycle detection ; available fixtures ;
+/// imported-fixture lookup]; at quiescence the warm answers must equal those of a cold twin.
+fn queries_during_an_analysis(rep: &'static Report, bound: usize) -> Value {
+    use crate::e1::{analyze, describe, Op, Scenario};
+    const CYC: &str = "import pytest\nfrom qh import *\n\n@pytest.fixture\ndef qa(qb):\n    return 1\n\n@pytest.fixture\ndef qb(qa):\n    return 2\n";
+    const PLAIN: &str = "import pytest\n";
+    const HELPER: &str = "import pytest\n\n@pytest.fixture\ndef qh():\n    return 1\n";
+    const TEST: &str = "def test_q(qa, qh):\n    pass\n";
+    let q = |desc: &str, g: Arc<dyn Fn(&Arc<FixtureDatabase>) + Send + Sync>| Op { desc: desc.to_string(), f: g };
+    let test = crate::e1::p("test_q.py");
+    let conf = crate::e1::p("conftest.py");
+    let (t1, c1) = (test.clone(), conf.clone());
+    let sc = Scenario {
+        name: "didChange(conftest.py := neither fixtures nor imports) ∥ [cycle detection ; available fixtures of the test ; imported-fixture lookup]".into(),
+        pre: vec![analyze("qh.py", HELPER), analyze("conftest.py", CYC), analyze("test_q.py", TEST)],
+        threads: vec![
+            vec![analyze("conftest.py", PLAIN)],
+            vec![
+                q("detect_fixture_cycles()", Arc::new(|db| { let _ = db.detect_fixture_cycles(); })),
+                q("get_available_fixtures(test_q.py)", Arc::new(move |db| { let _ = db.get_available_fixtures(&t1); })),
+                q("is_fixture_imported_in_file(qh, conftest.py)", Arc::new(move |db| { let _ = db.is_fixture_imported_in_file("qh", &c1); })),
+            ],
+        ],
+    };
+    let answers = move |db: &FixtureDatabase| -> Vec<String> {
+        let mut c: Vec<String> = db.detect_fixture_cycles().iter().map(|c| format!("{:?}", c.cycle_path)).collect();
+        c.sort();
+        let mut a: Vec<String> = db.get_available_fixtures(&test).iter().map(|d| d.name.clone()).collect();
+        a.sort();
+        vec![format!("cycles = {:?}", c), format!("available(test_q.py) = {:?}", a), format!("imported(qh in conftest.py) = {}", db.is_fixture_imported_in_file("qh", &conf))]
+    };
+    let cold = {
+        let db = FixtureDatabase::new();
+        db.analyze_file(crate::e1::p("qh.py"), HELPER);
+        db.analyze_file(crate::e1::p("conftest.py"), PLAIN);
+        db.analyze_file(crate::e1::p("test_q.py"), TEST);
+        answers(&db)
+    };
+    let mut out = Vec::new();
+    let (mut schedules, mut points) = (0u64, 0u64);
+    for (collide, pname) in [(true, "Collide"), (false, "Split")] {
+        crate::checks::c09::set_placement(collide);
+        let wrong = std::sync::Mutex::new(0u64);
+        let stats = crate::checks::c09::explore_scenario(rep, &sc, pname, bound, 3_000_000, &|r, choices| {
+            let case = || json!({"scenario": describe(&sc), "placement": pname, "choices": choices, "trace": vsched::trace_to_strings(&r.outcome)});
+            if let Some(a) = &r.outcome.abort {
+                if !matches!(a, vsched::Abort::Divergence(_) | vsched::Abort::Unmodelled(_)) {
+                    rep.violation("deadlock or horizon overrun during analysis ∥ queries", &format!("{:?}", a), case);
+                }
+                return;
+            }
+            let Some(db) = &r.db else { return };
+            let warm = answers(db);
+            for (w, c) in warm.iter().zip(&cold) {
+                if w != c {
+                    *wrong.lock().unwrap() += 1;
+                    let fp = format!("an answer cached by a query that ran during an analysis is served after it: {}", w.split(" = ").next().unwrap_or(""));
+                    if !rep.count_if_seen(&fp) {
+                        rep.violation(&fp, &format!("[{}] warm `{}` vs cold `{}`", pname, w, c), case);
+                    }
+                }
+            }
+        });
+        schedules += stats.schedules;
+        points += stats.points;
+        let w = *wrong.lock().unwrap();
+        println!("  analysis ∥ queries [{}] P≤{}: {} schedules, {} end with a stale answer", pname, bound, stats.schedules, w);
+        out.push(json!({"placement": pname, "preemption_bound_completed": bound, "schedules": stats.schedules, "scheduling_points": stats.points, "schedules_ending_with_a_stale_answer": w}));
+    }
+    json!({"scenario": sc.name, "schedules": schedules, "scheduling_points": points, "per_placement": out})
+}
+
 pub fn run(rep: &'static Report) {
     let thorough = is_thorough();
     let depth: u8 = if thorough { 4 } else { 3 };
+    let during = queries_during_an_analysis(rep, if thorough { 3 } else { 2 });
+    rep.set("queries_during_an_analysis", during);
     let saved = saved_documents(rep, if thorough { 6 } else { 5 });
     rep.set("histories_with_save", saved);
     let (v1, model) = explore(rep, files(), depth, NQ, run_query);
